@@ -55,7 +55,47 @@ fn lib_infer(dag: &[Node], fam: Fam, order: &[usize], program: bool) -> Result<V
     types::Context::with_context(|ctx| {
         let built = match build_in_order(&ctx, dag, fam, order, &|_| None) {
             Ok(b) => b,
-            Err((_, e)) => {
+            Err((i, e)) => {
+                // The same DAG once more in a fresh context, every rejected constructor call repeated once:
+                // whatever a failed unification leaves behind, the program must not end up accepted.
+                // Known finding F17: when the nodes built before the failing call already carry cyclic
+                // (infinite) constraints - which the library only checks at finalisation - a failed
+                // unification rewrites part of the cycle into finite types, the repeated call is accepted and the
+                // program finalises (or finalisation panics). Such cases get their own class.
+                let pos = order.iter().position(|x| *x == i).unwrap_or(0);
+                let cyclic = {
+                    let mut idx = vec![usize::MAX; dag.len()];
+                    let mut sub: Vec<Node> = vec![];
+                    let mut keep: Vec<usize> = order[..pos].to_vec();
+                    keep.sort_unstable();
+                    for (k, &j) in keep.iter().enumerate() {
+                        idx[j] = k;
+                    }
+                    for &j in &keep {
+                        let n = dag[j];
+                        sub.push(Node { sym: n.sym, l: if n.sym.arity() >= 1 { idx[n.l as usize] as u8 } else { 0 }, r: if n.sym.arity() >= 2 { idx[n.r as usize] as u8 } else { 0 } });
+                    }
+                    !sub.is_empty() && matches!(infer(&sub, fam, false), Infer::Err(_, crate::reference::unify::UErr::Occurs))
+                };
+                let suffix = if cyclic { ":cyclic-constraints" } else { "" };
+                let again = guard(|| {
+                    types::Context::with_context(|ctx2| match crate::space::dag::build_in_order_retrying(&ctx2, dag, fam, order) {
+                        Ok((b, true)) => {
+                            let root = &b[dag.len() - 1];
+                            if program { root.finalize_types().is_ok() } else { root.finalize_types_non_program().is_ok() }
+                        }
+                        _ => false,
+                    })
+                });
+                match again {
+                    Ok(false) => {}
+                    Ok(true) => {
+                        return Err((format!("verdict:accepted-on-retry{suffix}"), format!("the constructor of node {i} is rejected ({e}); when the rejected call is simply repeated, construction and finalisation of the whole program succeed")));
+                    }
+                    Err(p) => {
+                        return Err((format!("verdict:panic-on-retry{suffix}"), format!("the constructor of node {i} is rejected ({e}); when the rejected call is repeated, construction or finalisation panics: {p}")));
+                    }
+                }
                 if let Some(p) = display_bounded(&e, &e) {
                     return Err(("error-display".to_string(), p));
                 }
